@@ -122,8 +122,10 @@ def _closure_at(m, i):
 
 
 def _forbid_control(m_body, what):
-    if re.search(r"(?<![A-Za-z0-9_])(return|break|continue)(?![A-Za-z0-9_])", m_body) or "?" in m_body:
-        raise Unsupported("%s: closure body contains return/break/continue/? - rule not applicable" % what)
+    # `break`/`continue` inside a closure body can only target loops inside that body (rustc rejects anything else), so
+    # inlining the body keeps their meaning; `return` and `?` would leave the enclosing function instead of the closure
+    if re.search(r"(?<![A-Za-z0-9_])return(?![A-Za-z0-9_])", m_body) or "?" in m_body:
+        raise Unsupported("%s: closure body contains return/? - rule not applicable" % what)
 
 
 import threading
@@ -603,6 +605,89 @@ def n23_str_match(body, log):
         log.append("N23")
 
 
+def n19_and_then(body, log):
+    """N19: `OPT.and_then(|P| BODY)` ==> `(match OPT { Some(P) => BODY, None => None })` (definition of Option::and_then;
+    on a Result receiver the rewritten text does not type-check and the run ends INCONCLUSIVE)."""
+    while True:
+        m = mask(body)
+        hit = re.search(r"\.\s*and_then\s*\(\s*\|", m)
+        if not hit:
+            return body
+        dot = hit.start()
+        rs = _recv_start(m, dot)
+        recv = body[rs:dot].strip()
+        open_p = m.index("(", dot)
+        close_p = match_close(m, open_p)
+        ps, pe, bs, be = _closure_at(m, hit.end() - 1)
+        if skip_ws(m, be) != close_p:
+            raise Unsupported("N19: unexpected tokens after closure")
+        _forbid_control(m[bs:be], "N19")
+        param = body[ps:pe].strip()
+        if not re.fullmatch(r"[A-Za-z_][A-Za-z0-9_]*", param):
+            raise Unsupported("N19: closure parameter is not a plain identifier")
+        new = "(match %s { Some(%s) => %s, None => None })" % (recv, param, body[bs:be])
+        body = body[:rs] + new + body[close_p + 1:]
+        log.append("N19")
+
+
+def n20_bool_then(body, log):
+    """N20: `COND.then(|| BODY)` ==> `(if COND { Some(BODY) } else { None })` (definition of bool::then)."""
+    while True:
+        m = mask(body)
+        hit = re.search(r"\.\s*then\s*\(\s*\|\|", m)
+        if not hit:
+            return body
+        dot = hit.start()
+        rs = _recv_start(m, dot)
+        recv = body[rs:dot].strip()
+        open_p = m.index("(", dot)
+        close_p = match_close(m, open_p)
+        ps, pe, bs, be = _closure_at(m, hit.end() - 2)
+        if skip_ws(m, be) != close_p:
+            raise Unsupported("N20: unexpected tokens after closure")
+        _forbid_control(m[bs:be], "N20")
+        new = "(if %s { Some(%s) } else { None })" % (recv, body[bs:be])
+        body = body[:rs] + new + body[close_p + 1:]
+        log.append("N20")
+
+
+def n21_tokens_loop(body, log):
+    """N21: `for T in M.tokens() { BODY }` (sourcemap::SourceMap) ==> index loop over `M.get_token(i)`, i in 0..M.get_token_count()
+    (definition of sourcemap's TokenIter: `next()` is `get_token(next_idx)` followed by `next_idx += 1`)."""
+    n = 0
+    while True:
+        m = mask(body)
+        hit = re.search(r"(?<![A-Za-z0-9_])for\s+([A-Za-z_][A-Za-z0-9_]*)\s+in\s+([A-Za-z_][A-Za-z0-9_.]*)\s*\.\s*tokens\s*\(\s*\)\s*\{", m)
+        if not hit:
+            return body
+        bs = hit.end() - 1
+        be = match_close(m, bs)
+        var, recv = hit.group(1), hit.group(2)
+        idx = "verif_i%d" % n
+        n += 1
+        # the index is advanced before the body runs, as TokenIter::next does, so `continue` in the body keeps its meaning
+        new = ("let mut %s: u32 = 0;\nwhile %s < %s.get_token_count() {\nlet %s = %s.get_token(%s).unwrap();\n%s += 1;%s\n}"
+               % (idx, idx, recv, var, recv, idx, idx, body[bs + 1:be]))
+        body = body[:hit.start()] + new + body[be + 1:]
+        log.append("N21")
+
+
+def n24_wildcard_param(body, log):
+    """N24: a closure whose only parameter is the wildcard `_` gets a named, unused parameter (Verus: only variables are
+    supported as closure parameters)."""
+    n = 0
+    while True:
+        m = mask(body)
+        hit = re.search(r"\(\s*\|\s*_\s*\|", m)
+        if not hit:
+            return body
+        a = m.index("_", hit.start())
+        body = body[:a] + ("verif_w%d" % n) + body[a + 1:]
+        n += 1
+        log.append("N24")
+
+
+
 def n17_unsize(body, log):
     """N17: the implicit unsizing coercion `&mut X` -> `&mut dyn IdentProvider` in the struct literal field
     `ident_provider: &mut ident_provider` is made an explicit call of the identity function `verif_unsize_provider`
@@ -633,6 +718,10 @@ RULES = {
     "N17": n17_unsize,
     "N18": n18_map_stmt,
     "N23": n23_str_match,
+    "N19": n19_and_then,
+    "N20": n20_bool_then,
+    "N21": n21_tokens_loop,
+    "N24": n24_wildcard_param,
 }
 
 # order matters: N8 restructures arms first, N4 then wraps guarded blocks, then closures are inlined
